@@ -349,6 +349,16 @@ func hostileInput(c *RecvCase, pool [][]byte, s *Sess) []byte {
 			own := s.W.P[0].C.GetOurInstanceTag()
 			f = fmt.Sprintf("?OTR|%08x|%08x,00001,00001,%s,", s.W.P[1].C.GetOurInstanceTag(), own, string(c.Raw))
 		}
+		if c.B%3 == 1 && s != nil && c.Cfg.V == 3 {
+			// prefixes with acceptable tags but missing or misplaced separators, cut at every length around the header size
+			own, peer := s.W.P[0].C.GetOurInstanceTag(), s.W.P[1].C.GetOurInstanceTag()
+			tagForms := []string{
+				fmt.Sprintf("?OTR|%08x|%08x", peer, own), fmt.Sprintf("?OTR|%09x|%08x", peer, own), fmt.Sprintf("?OTR|%08x|%09x", peer, 0),
+				fmt.Sprintf("?OTR|%x|%x", peer, own), fmt.Sprintf("?OTR|%08x|%08x|", peer, own), fmt.Sprintf("?OTR|%010x|%08x", peer, 0),
+				fmt.Sprintf("?OTR|%08x|%08x,", peer, own), fmt.Sprintf("?OTR|%08x|%08x,00001", peer, own), fmt.Sprintf("?OTR|%08x|%08x00001,00001,x,", peer, own),
+			}
+			f = tagForms[(c.A/16)%len(tagForms)] + "xxxxxxxx"[:c.A%4]
+		}
 		return []byte(f)
 	case 8: // a first fragment announcing many pieces with a large payload
 		return []byte(fmt.Sprintf("?OTR,1,%d,%s,", 1+c.A%65535, strings.Repeat("A", c.B%60000)))
